@@ -105,6 +105,30 @@ func init() {
 	gens["C09"] = genC09
 }
 
+// bip39Tables learns a list's index -> word and word -> index mappings through the public API: the first word of the
+// sentence of a 16-byte entropy whose first 11 bits are i is word i.
+var bip39TableCache = map[string][]string{}
+
+func bip39Tables(lang string) ([]string, map[string]int) {
+	words := bip39TableCache[lang]
+	if words == nil {
+		setLang(lang)
+		words = make([]string, 2048)
+		for i := range words {
+			e := make([]byte, 16)
+			e[0], e[1] = byte(i>>3), byte(i<<5)
+			m, _ := bip39.EntropyToMnemonic(e)
+			words[i] = m[0]
+		}
+		bip39TableCache[lang] = words
+	}
+	index := make(map[string]int, 2048)
+	for i, w := range words {
+		index[w] = i
+	}
+	return words, index
+}
+
 func genC03(g *G) {
 	langs := []string{"english", "japanese"}
 	// every length x {all-zero, all-one, leading 1..4 zero bytes, trailing zeros, random}
@@ -199,6 +223,33 @@ func genC03(g *G) {
 			ws[g.r.intn(len(ws))] = o[0]
 		}
 		g.emit("bip39.dec", lang, hx([]byte(strings.Join(ws, " "))))
+	}
+	// checksum-bit sweep (added after seeded change C03-f, which compared only the last word's 11 bits: for 48..64-byte
+	// entropies the top 1..5 checksum bits live in the second-to-last word): every single checksum bit and the 11 entropy
+	// bits next to it flipped in the bit string entropy||checksum of valid sentences of every size, re-split into words
+	for _, lang := range langs {
+		words, index := bip39Tables(lang)
+		for size := 16; size <= 64; size += 4 {
+			cs := size / 4
+			for rep := 0; rep < 2; rep++ {
+				setLang(lang)
+				e := g.r.bytes(size)
+				if rep == 1 {
+					e = make([]byte, size)
+				}
+				m, _ := bip39.EntropyToMnemonic(e)
+				idx := make([]int, len(m))
+				for i, w := range m {
+					idx[i] = index[w]
+				}
+				for k := 0; k < cs+11; k++ { // bit k counted from the end of the bit string
+					ws := append([]string(nil), m...)
+					wpos := len(ws) - 1 - k/11
+					ws[wpos] = words[idx[wpos]^(1<<uint(k%11))]
+					g.emit("bip39.dec", lang, hx([]byte(strings.Join(ws, " "))))
+				}
+			}
+		}
 	}
 	g.emit("bip39.dec", "english", "_")
 	for _, b := range [][]byte{{}, []byte("abc"), make([]byte, 64), make([]byte, 111), make([]byte, 112), make([]byte, 119), make([]byte, 120), make([]byte, 200)} {
